@@ -61,6 +61,7 @@ type ScriptObs struct {
 	Runs      []int      `json:"runs"`
 	Bg        []BgObs    `json:"bg"`
 	HaveSetup bool       `json:"have_setup"`
+	RootIno   uint64     `json:"root_ino,omitempty"` // inode of the shared root at Setup (the directory is kept open, so the number cannot be reused)
 	SetupEnv  []string   `json:"setup_env"`
 	SetupTree string     `json:"setup_tree"`
 	Probes    []ProbeObs `json:"probes"`
@@ -91,6 +92,7 @@ type rootT struct {
 	fatal   string
 	gs      *gateSched
 	index   map[string]int
+	seq     bool // a sequential T (as cmd/testscript's): Run runs the subtest to its end, Parallel does nothing
 }
 
 type gateEv struct {
@@ -223,6 +225,10 @@ func (r *rootT) Run(name string, f func(testscript.T)) {
 		s.start = time.Now()
 		f(s)
 	}()
+	if r.seq {
+		<-s.done
+		return
+	}
 	// like testing.T.Run: return when the subtest has finished or has called Parallel
 	select {
 	case <-s.paused:
@@ -231,6 +237,9 @@ func (r *rootT) Run(name string, f func(testscript.T)) {
 }
 
 func (s *subT) Parallel() {
+	if s.root.seq {
+		return
+	}
 	close(s.paused)
 	if s.root.gs != nil {
 		s.root.gs.park(s.root.index[s.name])
@@ -285,6 +294,7 @@ type collector struct {
 	scripts map[string]*ScriptObs
 	bgSeen  map[string]int
 	nProbe  int
+	keep    []*os.File
 }
 
 func (c *collector) get(name string) *ScriptObs {
@@ -446,8 +456,20 @@ func runBatchChild(job *Job, deadline time.Time) *ChildResult {
 			})
 		}
 		tree := treeString(env.WorkDir)
+		var ino uint64
+		if rf, err := os.Open(filepath.Dir(env.WorkDir)); err == nil {
+			if st, err := rf.Stat(); err == nil {
+				if sys, ok := st.Sys().(*syscall.Stat_t); ok {
+					ino = sys.Ino
+				}
+			}
+			col.mu.Lock()
+			col.keep = append(col.keep, rf) // stays open until the process ends
+			col.mu.Unlock()
+		}
 		col.mu.Lock()
 		o := col.get(name)
+		o.RootIno = ino
 		o.Workdir = env.WorkDir
 		o.HaveSetup = true
 		o.SetupEnv = append([]string{}, env.Vars...)
@@ -545,7 +567,7 @@ func runBatchChild(job *Job, deadline time.Time) *ChildResult {
 	if par <= 0 {
 		par = 8
 	}
-	root := &rootT{release: make(chan struct{}), sem: make(chan struct{}, par), verbose: bt.Verbose, gs: gs, index: index}
+	root := &rootT{release: make(chan struct{}), sem: make(chan struct{}, par), verbose: bt.Verbose, gs: gs, index: index, seq: bt.SeqT}
 	t0 := time.Now()
 	res.T0 = t0.UnixNano()
 	ran := make(chan struct{})
